@@ -1,10 +1,11 @@
 import ScVerif.C09.Codec
 import ScVerif.C09.SendTimeout
+import ScVerif.C09.MapQueue
 /-! Driver handler for C09.
 
 * `merge <a> <b>`                 → `mergeChanges a b` (`drop` when `send == false`)
 * `mrun <move>*`                  moves `r:<change>` (offer one input) / `e` (take one output) on the
-                                  `mergeCollectionExcess` machine from its initial state →
+                                  `mergeCollectionExcess` machine AS CODED (messages map + queue of ids, `MapQueue.lean`) from its initial state →
                                   `<out>;…|<pending>` with one `<out>` per `e` move (`none` = not enabled)
 * `drun <move>*`                  the same for `DropExcess` over opaque tokens: `r:<tok>` / `e`
 * `send <deadline> <listener>*`   `Bus.Send` with a deadline over listeners `<readyAt>/<cancelledAt>` (`-` = never)
@@ -63,8 +64,10 @@ def handle? (toks : List String) : Option String :=
     pure (showOptChange (mergeChanges a b))
   | "mrun" :: ms => do
     let ms ← ms.mapM parseMove?
-    let r := runOut MState.init ms
-    pure (showOuts (r.1.map (showOut showChange)) ++ "|" ++ showChanges r.2.pending)
+    -- the machine exactly as coded (map + queue); `C09_map_queue_refines` relates it to `run`
+    let zero : SChange := ⟨"", .unspecified, 0, none, none, false, false⟩
+    let r := crunOut zero CState.init ms
+    pure (showOuts (r.1.map (showOut showChange)) ++ "|" ++ showChanges r.2.abs)
   | "drun" :: ms => do
     let ms ← ms.mapM parseDMove?
     let r := drunOut (none : DState String) ms
